@@ -126,7 +126,8 @@ namespace MEDDLY {
                 const forest* f2, const edge_value &bv, node_handle bn)
         {
             if (OMEGA_INFINITY == an) return (!f1->isIdentityReduced());
-            if (OMEGA_NORMAL == an) {
+            if ((OMEGA_NORMAL == an) && (OMEGA_NORMAL == bn)) {
+                // 0 * b is 0 only if b is finite everywhere
                 if (0 == EDGETYPE(av)) return true;
             }
             if (OMEGA_NORMAL == bn) {
@@ -139,7 +140,8 @@ namespace MEDDLY {
                 const forest* f2, const edge_value &bv, node_handle bn)
         {
             if (OMEGA_INFINITY == bn) return (!f2->isIdentityReduced());
-            if (OMEGA_NORMAL == bn) {
+            if ((OMEGA_NORMAL == bn) && (OMEGA_NORMAL == an)) {
+                // a * 0 is 0 only if a is finite everywhere
                 if (0 == EDGETYPE(bv)) return true;
             }
             if (OMEGA_NORMAL == an) {
